@@ -22,7 +22,7 @@ h_pub(void)
 	IN_BYTES(priv, CRYPTO_DH_PRIVLEN, CRYPTO_DH_PRIVLEN);
 	uint8_t * pub = malloc(CRYPTO_DH_PUBLEN);
 	__CPROVER_assume(pub != NULL);
-	g_bn_secret_priv = priv;
+	g_bn.secret_priv = priv;
 	int rc;
 
 	rc = crypto_dh_generate_pub(pub, priv);
@@ -30,7 +30,7 @@ h_pub(void)
 	if (rc == 0)
 		__CPROVER_assert(DH_LOG(0).a == 2 && DH_LOG(1).a == 2, "C10: the public value is a power of 2");
 	VCOVER(rc == 0 && g_oi == 255);
-	VCOVER(rc == -1 && g_bn.ncalls == ncalls0 && g_dh_rand_fail == rfail0);
-	VCOVER(rc == -1 && g_dh_rand_fail == rfail0 + 1);
+	VCOVER(rc == -1 && g_bn.ncalls == ncalls0 && g_bn.rand_fail == rfail0);
+	VCOVER(rc == -1 && g_bn.rand_fail == rfail0 + 1);
 	free(priv); free(pub);
 }
